@@ -479,10 +479,16 @@ def run_property(mod, tier, seedv, only=None, jobs=None):
     # floors
     if not m["fails"] and not m["errors"] and m["evals"] > 0:
       for lb, share in m["clause"].floors.items():
-        got = m["labels"].get(lb, 0) / float(m["evals"])
-        if got < share:
+        # a floor guards against a generator that stopped producing a class, not against sampling
+        # noise: the count must fall 4 binomial standard deviations below floor x evaluations
+        # (or be zero where at least 3 are expected) before the run is declared unusable
+        cnt = m["labels"].get(lb, 0)
+        n = float(m["evals"])
+        need = share * n
+        slack = 4.0 * (need * max(1.0 - share, 0.0)) ** .5
+        if cnt < need - slack or (cnt == 0 and need >= 3):
           errors.append("%s: generator degenerated: label %r share %.4f < floor %.4f"
-                        % (name, lb, got, share))
+                        % (name, lb, cnt / n, share))
 
   evals = sum(m["evals"] for m in per.values())
   for m in per.values():
